@@ -20,7 +20,8 @@ import (
 
 func init() {
 	register(&Check{
-		ID: "C20", Level: "exploration", Configs: []string{"clean"},
+		ID:      "C20",
+		Tenants: func(c *core.Ctx, i int) tenant { return tenantPacket(c, "clone") }, Level: "exploration", Configs: []string{"clean"},
 		Run:         runC20,
 		QuickRuns:   300_000,
 		ThoroughSec: 480,
